@@ -65,7 +65,46 @@ def ensureUniqueH (f : List Char → List (List Char) → Option (List Char)) : 
     | .error _ => verdict false [] "no result"
   pure (answer (optStr m) impl judge (if used.contains base then "probe" else "free"))
 
+/-- scope-level judge on EMITTED code: within a struct's fields, an enum's variants and the module's type
+items, all identifiers are legal and pairwise distinct, and no declared member was dropped. -/
+def scopes : Handler := fun req => do
+  let inp ← field req "in"
+  let impl ← field req "impl"
+  if (impl.getObjVal? "err").toOption.isSome || (impl.getObjVal? "panic").toOption.isSome then
+    return Json.mkObj [("model", Json.null), ("match", true), ("judge", verdict false [] "generation failed on a collision spec"), ("branch", "failed")]
+  let defs := (arr (fieldD impl "defs" (Json.arr #[]))).toOption.getD []
+  let sOf (j : Json) (k : String) : String := (fieldD j k (Json.str "")).getStr?.toOption.getD ""
+  let dupOf (l : List String) : List String := (l.filter fun x => (l.filter (· == x)).length > 1).eraseDups
+  let expectFields := fieldD inp "expect_fields" (Json.mkObj [])
+  let expectVariants := fieldD inp "expect_variants" (Json.mkObj [])
+  let judge := Id.run do
+    if !((arr (fieldD impl "parse_errors" (Json.arr #[]))).toOption.getD []).isEmpty then return verdict false [] "emitted code does not parse"
+    let typeNames := defs.map (sOf · "name")
+    if !(dupOf typeNames).isEmpty then return verdict false [] s!"two type items share a name: {dupOf typeNames}"
+    for d in defs do
+      let nm := sOf d "name"
+      if !legal .type nm.toList then return verdict false [] s!"illegal type identifier {nm}"
+      let fields := ((arr (fieldD d "fields" (Json.arr #[]))).toOption.getD []).map (sOf · "name")
+      let variants := ((arr (fieldD d "variants" (Json.arr #[]))).toOption.getD []).map (sOf · "name")
+      let isParam := nm.endsWith "Path" || nm.endsWith "Query" || nm.endsWith "Header"
+      if !(dupOf fields).isEmpty then
+        return verdict false (if isParam then ["KnownParamFieldClash"] else if fields.any (fun f => (f.toList.reverse.takeWhile Char.isDigit).length > 0) then ["KnownDedupSuffixClash"] else []) s!"struct {nm}: duplicate field {dupOf fields}"
+      if !(dupOf variants).isEmpty then return verdict false [] s!"enum {nm}: duplicate variant {dupOf variants}"
+      for f in fields do
+        if !legal .field f.toList then return verdict false [] s!"struct {nm}: illegal field identifier {f}"
+      for v in variants do
+        if !legal .type v.toList && v != "r#Self" then return verdict false [] s!"enum {nm}: illegal variant identifier {v}"
+      match expectFields.getObjVal? nm with
+      | .ok n => if (n.getNat?.toOption.getD fields.length) != fields.length then return verdict false [] s!"struct {nm}: {fields.length} fields emitted for {n.compress} declared properties (one was dropped or invented)"
+      | .error _ => pure ()
+      match expectVariants.getObjVal? nm with
+      | .ok n => if (n.getNat?.toOption.getD variants.length) != variants.length then return verdict false [] s!"enum {nm}: {variants.length} variants emitted for {n.compress} declared members"
+      | .error _ => pure ()
+    return verdict true []
+  pure (Json.mkObj [("model", Json.null), ("match", true), ("judge", judge), ("branch", (fieldD inp "kind" (Json.str "scopes")).getStr?.toOption.getD "scopes")])
+
 def ops : List (String × Handler) := [
+  ("naming.scopes", scopes),
   ("naming.field", sanitizer .field (toRustFieldName Oas3.Gen.forbidden) knownField),
   ("naming.type", sanitizer .type (toRustTypeName Oas3.Gen.prelude) (fun _ o => knownType o)),
   ("naming.const", sanitizer .const toRustConstName (fun _ _ => [])),
